@@ -54,6 +54,11 @@ for non_destructive in (False, True):
         first = ModelFunction(func='verif_probes.probe', name='first', arguments={{}})
         last = ModelFunction(func='verif_probes.writer', name='last', arguments={{'pixel_add': 2.0, 'signal': 1.0, 'photon': 3.0}})
         proc = Processor(detector=det, pipeline=DetectionPipeline(photon_collection=[first], charge_collection=[last]))
+        try:     # history: an EARLIER run of the same detector with the same times but another start time and mode
+            run_pipeline(processor=proc, readout=Readout(times=times, start_time=start - 0.25, non_destructive=non_destructive), outputs=None, debug=False, with_inherited_coords=False)
+        except Exception:
+            pass
+        VP.LOG.clear()
         try:
             run_pipeline(processor=proc, readout=Readout(times=times, start_time=start, non_destructive=non_destructive), outputs=None, debug=False, with_inherited_coords=False)
         except Exception as e:
@@ -146,7 +151,7 @@ def processor_run_contract(u, may_raise=True):
         k = st.ghost["LOOP_K"]
         parts = ex.det_parts
         det = st.cell(parts["det"])
-        rp = st.cell(det.fields["_readout_properties"]).fields
+        rp = st.cell(_rp_ref(det)).fields
         fr0 = Frame(None, None)
         g = D.GEN
         nd = z_bool(rp["_non_destructive"].v)
@@ -204,10 +209,16 @@ def havoc_buckets(ex):
     st.cell(parts["det"]).fields["_scene"] = VOpaque("xr", st.fresh_int("scene"), {"label": "scene(models)", "truthy": True})
 
 
+def _rp_ref(det):
+    """The detector's ReadoutProperties object (an earlier run's object kept on this path shows up as an optional)."""
+    v = det.fields["_readout_properties"]
+    return v.val if isinstance(v, VMaybe) else v
+
+
 def exposure_loop_spec():
     def rp_fields(ex):
         det = ex.st.cell(ex.det_parts["det"])
-        return ex.st.cell(det.fields["_readout_properties"]).fields
+        return ex.st.cell(_rp_ref(det)).fields
 
     def inv(ex, fr, k):
         st = ex.st
@@ -241,7 +252,7 @@ def exposure_loop_spec():
     def modifies(ex, fr):
         p = ex.det_parts
         det = ex.st.cell(p["det"])
-        return [p[b].addr for b in ("photon", "pixel", "signal", "image", "charge", "det")] + [det.fields["_readout_properties"].addr]
+        return [p[b].addr for b in ("photon", "pixel", "signal", "image", "charge", "det")] + [_rp_ref(det).addr]
     return LoopSpec("(i, (time, step)) in enumerate(zip(detector.readout_properties.times, detector.readout_properties.steps, strict=False))",
                     inv, havoc=havoc, modifies=modifies, name="run.loop")
 
@@ -254,6 +265,20 @@ def exposure_setup(u, ex, valid_schedule=True, prior="arbitrary"):
         st.assume(z3.And(N >= 1, T(0) != 0, START < T(0)))
         st.assume(z3.ForAll([k], z3.Implies(z3.And(k >= 0, k < N - 1), T(k) < T(k + 1))))
     det = D.mk_detector(ex, u, prior=prior)
+    if prior == "arbitrary":
+        # history: the detector may still hold the ReadoutProperties of an EARLIER run — any valid schedule, possibly with the
+        # same times as the new one but another start time / mode (a well-formed object: its steps are its own differences)
+        OT, OSTART, ON = z3.Function("old_times", z3.IntSort(), z3.RealSort()), z3.Real("old_start_time"), z3.Int("n_old_times")
+        osteps = lambda i: z3.If(i == 0, OT(0) - OSTART, OT(i) - OT(i - 1))
+        st.assume(z3.And(ON >= 1, OT(0) != 0, OSTART < OT(0)))
+        rpci = u.cls(f"{RP}::ReadoutProperties")
+        old = st.alloc(HObj(rpci, {
+            "_times": st.alloc(HArr((ON,), VDtype("float64"), lambda ix: VFloat(OT(z_int(ix[0]))))),
+            "_steps": st.alloc(HArr((ON,), VDtype("float64"), lambda ix: VFloat(osteps(z_int(ix[0]))))),
+            "_num_steps": VInt(ON), "_start_time": VFloat(OSTART), "_end_time": VFloat(OT(ON - 1)), "_non_destructive": VBool(z3.Bool("old_non_destructive")),
+            "_times_linear": VBool(z3.Bool("old_times_linear")), "_time": VFloat(z3.Real("old_time")), "_time_step": VFloat(z3.Real("old_time_step")),
+            "_read_out": VBool(True), "_pipeline_count": VInt(z3.Int("old_pipeline_count"))}))
+        st.cell(det).fields["_readout_properties"] = VMaybe(z3.Bool("ran_before"), old)
     st.ghost["generic"].append((GI,))
     st.ghost[CALLS] = z3.IntVal(0)
     st.ghost["SCENE_AT_HEAD"] = st.cell(det).fields["_scene"]
